@@ -197,24 +197,96 @@ def closure_and_lambda(a, b):
     return f(b, 2) + f(a, 3) + g(a)
 
 
-def refused_floordiv_mod(a, b):
+def floordiv_mod(a, b):
     if b == 0:
         raise ZeroDivisionError("b")
     return (a // b) * 1000 + (a % b)
 
 
-def refused_bool_arithmetic(a, b):
-    return (a > 0) + (b > 0) * 2
+def division_by_zero(a, b):
+    return a // (b - 2) + a % (b + 3)
 
 
-def refused_for_else(a, b):
+def divmod_identity(a, b):
+    if b == 0:
+        return 0
+    q = a // b
+    r = a % b
+    return (q * b + r - a) * 1000 + (1 if (r == 0 or (r > 0) == (b > 0)) else 0) + (2 if abs(r) < abs(b) else 0)
+
+
+def modulo_constant(a, b):
+    return (a % 7) * 100 + (b // 3) * 10 + (-a) % 4 + a // -2
+
+
+def bool_arithmetic(a, b):
+    return (a > 0) + (b > 0) * 2 + (a == b) * 4 - (a < b)
+
+
+def unary_plus(a, b):
+    return +a - +(-b)
+
+
+def for_else_concrete(a, b):
     for i in range(3):
         if i == a:
             break
     else:
         return -1
-    return b
+    return b + i
 
 
-def refused_tuple_order(a, b):
-    return 1 if (a, b) < (b, a) else 2
+def try_else(a, b):
+    r = 0
+    try:
+        if a < 0:
+            raise ValueError("v")
+    except ValueError:
+        r = 1
+    else:
+        r = 2
+        if b < 0:
+            r = 3
+    finally:
+        r += 10
+    return r
+
+
+def tuple_order(a, b):
+    x = 1 if (a, b) < (b, a) else 2
+    y = 1 if (a, b, 0) >= (a, 1) else 2
+    z = 1 if (a,) < (a, b) else 2
+    return x * 100 + y * 10 + z + (5 if (a, b) == (b, a) else 0) + (7000 if (a, 1) != (b, 1) else 0)
+
+
+def closure_defaults(a, b):
+    k = 3
+
+    def f(x, y=2, *, z=k):
+        return x * y + z
+    k = 100
+    return f(a) + f(a, b) + f(b, y=a) + f(1, z=b)
+
+
+def refused_except_other_class2(a, b):
+    try:
+        if a < b:
+            raise KeyError("k")
+        r = 1
+    except LookupError:
+        r = 2
+    return r
+
+
+def refused_for_else_symbolic(a, b):
+    n = a if 0 <= a <= 5 else 3
+    for i in range(n):
+        if i == b:
+            break
+    else:
+        return -1
+    return i
+
+
+def refused_float_floordiv(a, b):
+    return (a * 0.5) // 2
